@@ -115,7 +115,7 @@ def build(reg):
                      ("cryptography.hazmat.backends.default_backend", lambda *a: VOpaque("backend")),
                      ("cryptography.hazmat.primitives.hashes.SHA256", lambda *a: VStr("sha256")),
                      ("cryptography.hazmat.primitives.hashes.SHA1", lambda *a: VStr("sha1"))):
-        reg.external(name, fn)
+        reg.external(name, fn, pure=True)
     reg.native_spec("HMAC_SHA1", lambda ex, state, k, m: VBytes(_hmac(state, "sha1", k.t, m.t)))
     reg.native_spec("HMAC_SHA256", lambda ex, state, k, m: VBytes(_hmac(state, "sha256", k.t, m.t)))
     reg.native_spec("B64", lambda ex, state, x: VBytes(b64_f(x.t)))
